@@ -152,3 +152,17 @@ func trunc(s string, n int) string {
 	}
 	return s
 }
+
+// tinyGLVScalar reports whether both GLV sub-scalars of s (w.r.t. the curve's
+// eigenvalue) are tiny (|k1|, |k2| < 2^8), e.g. s in {1, 2, lambda, lambda^2 = -1-lambda, ...}.
+func tinyGLVScalar(cv *swCurve, s *big.Int) bool {
+	if cv.Lambda == nil {
+		return false
+	}
+	eisensteinSteps(cv, big.NewInt(1)) // make sure the lattice is cached
+	latticeMu.Lock()
+	l := lattices[cv.Name]
+	latticeMu.Unlock()
+	sp := ecc.SplitScalar(new(big.Int).Mod(s, cv.R), l)
+	return new(big.Int).Abs(&sp[0]).BitLen() <= 8 && new(big.Int).Abs(&sp[1]).BitLen() <= 8
+}
